@@ -448,6 +448,16 @@ def explicit_type_check(iff, body=None):
     return rejects
 
 
+_SEM_CACHE = {}
+
+
+def _sem_of(E, hb):
+    k = (id(E), hb["dp"])
+    if k not in _SEM_CACHE:
+        _SEM_CACHE[k] = sem.Sem(E, hb)
+    return _SEM_CACHE[k]
+
+
 def rule_elems(E, R):
     rule = "R08-elems"
     n = 0
@@ -504,7 +514,24 @@ def rule_elems(E, R):
                 pre = preceding_stmts(body, c) or []
                 if any(explicit_type_check(i, body) for st in pre for i in exprs(st, "If", into_closures=False)):
                     verdict = ("guarded", "preceded by a type comparison that rejects a mismatch")
-                elif c.get("k") == "MethodCall" and c["m"] == "collect":
+                if verdict is None:
+                    # the same through the path condition: a type comparison (possibly inside a private helper used with
+                    # `?`) is known to have succeeded where the value is stored
+                    Sx = _sem_of(E, hb)
+                    for x in Sx.sites():
+                        if x.node is not c:
+                            continue
+                        for op, l, r, fr, certain in sem.weak_cmps(x.pc):
+                            tys = {norm(strip(l).get("ty", "")).lstrip("&"), norm(strip(r).get("ty", "")).lstrip("&")}
+                            def from_gt(n_, fr_):
+                                if any(y["m"] == "get_type" for y in exprs(n_, "MethodCall")):
+                                    return True
+                                return any(b_.expr is not None and any(y["m"] == "get_type" for y in exprs(b_.expr, "MethodCall"))
+                                           for b_ in sem.locals_in(Sx, n_, fr_))
+                            gl, gr = from_gt(l, fr), from_gt(r, fr)
+                            if certain and op == "Eq" and tys <= {"types::Type", "types::CompoundType"} and gl != gr:
+                                verdict = ("guarded", "a type comparison is known to have succeeded on the path to the store")
+                if verdict is None and c.get("k") == "MethodCall" and c["m"] == "collect":
                     root, ch = chain(c)
                     kinds = [_closure_or_fn_kind(x["args"][0]) for x in ch if x["m"] == "map" and x.get("args")]
                     if "guarded" in kinds:
